@@ -1,5 +1,6 @@
 (** Pins for C01: the statements written out, so that no theorem is weakened quietly. *)
-From TucModel Require Import Base.Bytes Base.ListX Model.Scan Spec.Fields Proofs.ScanSplit Properties.C01.
+From TucModel Require Import Base.Bytes Base.ListX Model.Bounds Model.BoundsParse Model.Scan Model.Opt
+     Model.CutBytes Model.CutStr Spec.Fields Proofs.C06 Proofs.ScanSplit Proofs.Plain Properties.C01.
 
 
 Check C01_fields_locations_are_fields :
@@ -15,3 +16,19 @@ Print Assumptions C01_offsets_equal_values.
 Check C01_split_is_leftmost_nonoverlapping :
   forall d line : bytes, d <> [] -> is_split d line (split d line).
 Print Assumptions C01_split_is_leftmost_nonoverlapping.
+
+Check C01_plain_record_is_exactly_the_requested_fields :
+  forall (o : opt) (d : byte) (line : bytes),
+    plain_opts o d -> o_trim o = None -> o_only_delimited o = false ->
+    line <> [] -> Forall item_nz (items (o_bounds o)) ->
+    cut_str o line
+    = Some (match spec_items (split_on d line) (o_fallback o) (o_join o) (rep_of o d) (items (o_bounds o)) with
+            | Some x => ROk (x ++ [o_eol o])
+            | None => RErr
+            end).
+Print Assumptions C01_plain_record_is_exactly_the_requested_fields.
+
+Check C01_replacement_rewrites_exactly_the_separators :
+  forall (d : byte) (rep : bytes) (fs : list bytes), fs <> [] -> Forall (dfree d) fs ->
+    replace_matches (intercalate [d] fs) (lit_matches [d] (intercalate [d] fs)) rep = intercalate rep fs.
+Print Assumptions C01_replacement_rewrites_exactly_the_separators.
